@@ -252,6 +252,9 @@ async def do_copy(s: USession, dest: bytes, move: bool) -> None:
                     # finding itself, not something to build on
                     cid = None
                     s.ulog.count('copies_from_stale_selection')
+                    # ... and the shared UID->content map must forget what
+                    # Session.copy() has just derived from it
+                    s.hist.owner.pop(s.hist._key(dest, du, val), None)
                 s.ulog.add(dest, val, du, cid, r.step_call, r.step_ret,
                            'COPYUID')
                 sval = getattr(s, 'validity', None)
